@@ -28,3 +28,381 @@ func TestVerifFindingPathLenZero(t *testing.T) {
 	}
 	fmt.Printf("VERIF-REPLAY: not-reproduced decoded ca=%v pathLen=%d\n", bc.IsCa, bc.PathLen)
 }
+
+// ---- bounded stand-in for the extension constructors (C06, C07) --------------------------------------------------
+// Every value is read back with a small DER walker that shares nothing with the package under test but encoding/asn1's
+// RawValue parser. Bounds are stated per constructor. The combination (ca, pathLen 0) is the recorded known finding of
+// C07 and is left out here.
+
+type vfTLV struct {
+	Class, Tag int
+	Compound   bool
+	Bytes      []byte
+}
+
+// vfSeq splits DER content into its TLVs.
+func vfSeq(b []byte) ([]vfTLV, error) {
+	var out []vfTLV
+	for len(b) > 0 {
+		var rv asn1.RawValue
+		rest, err := asn1.Unmarshal(b, &rv)
+		if err != nil {
+			return nil, err
+		}
+		out = append(out, vfTLV{rv.Class, rv.Tag, rv.IsCompound, rv.Bytes})
+		b = rest
+	}
+	return out, nil
+}
+
+func vfOne(b []byte) (vfTLV, error) {
+	s, err := vfSeq(b)
+	if err != nil {
+		return vfTLV{}, err
+	}
+	if len(s) != 1 {
+		return vfTLV{}, fmt.Errorf("%d top-level values", len(s))
+	}
+	return s[0], nil
+}
+
+func vfOidOf(t vfTLV) string {
+	var o asn1.ObjectIdentifier
+	full, _ := asn1.Marshal(asn1.RawValue{Class: t.Class, Tag: t.Tag, IsCompound: t.Compound, Bytes: t.Bytes})
+	if _, err := asn1.Unmarshal(full, &o); err != nil {
+		return "?"
+	}
+	return o.String()
+}
+
+func TestVerifBoundedExtensions(t *testing.T) {
+	n := 0
+	bad := func(f string, a ...any) { fmt.Printf("VERIF-BOUNDED: violation "+f+"\n", a...) }
+	hdr := func(what string, ext pkixExt, critical bool, oid string) bool {
+		if ext.Critical != critical || ext.Id.String() != oid {
+			bad("%s: critical=%v id=%v, configured critical=%v, the extension is %s", what, ext.Critical, ext.Id, critical, oid)
+			return false
+		}
+		return true
+	}
+	// key usage: all 256 flag bytes x critical
+	for f := 0; f < 256; f++ {
+		for _, crit := range []bool{false, true} {
+			n++
+			ext := NewKeyUsage(crit, KeyUsage(f))
+			if !hdr("keyUsage", pkixExt{ext.Id, ext.Critical, ext.Value}, crit, "2.5.29.15") {
+				return
+			}
+			v, err := vfOne(ext.Value)
+			if err != nil || v.Class != 0 || v.Tag != 3 || v.Compound || len(v.Bytes) < 1 {
+				bad("keyUsage(%#x): not a BIT STRING: % x (%v)", f, ext.Value, err)
+				return
+			}
+			want := f & 0xFE
+			last := -1
+			for i := 0; i < 8; i++ {
+				if want&(0x80>>i) != 0 {
+					last = i
+				}
+			}
+			unused, data := int(v.Bytes[0]), v.Bytes[1:]
+			got, bits := 0, len(data)*8-unused
+			if len(data) > 0 {
+				got = int(data[0])
+			}
+			if got != want || bits != last+1 || len(data) > 1 {
+				bad("keyUsage(%#x): encoded flags %#x with %d bits, RFC 5280 named bit list wants %#x with %d bits", f, got, bits, want, last+1)
+				return
+			}
+		}
+	}
+	// subjectAltName: all lists of length 0..3 over six names
+	type nm struct {
+		g   GeneralName
+		tag int
+		b   []byte
+	}
+	pool := []nm{{GeneralNameRFC822("a@b.c"), 1, []byte("a@b.c")}, {GeneralNameDNS("x.y"), 2, []byte("x.y")}, {GeneralNameDNS("longer.example.org"), 2, []byte("longer.example.org")},
+		{GeneralNameURI("http://u/"), 6, []byte("http://u/")}, {GeneralNameIP{1, 2, 3, 4}, 7, []byte{1, 2, 3, 4}}, {GeneralNameIP{255, 0, 0, 255}, 7, []byte{255, 0, 0, 255}}}
+	var lists [][]nm
+	lists = append(lists, nil)
+	for _, a := range pool {
+		lists = append(lists, []nm{a})
+		for _, b := range pool {
+			lists = append(lists, []nm{a, b})
+			for _, c := range pool {
+				lists = append(lists, []nm{a, b, c})
+			}
+		}
+	}
+	checkNames := func(what string, tlvs []vfTLV, l []nm) bool {
+		if len(tlvs) != len(l) {
+			bad("%s: %d names encoded, %d configured", what, len(tlvs), len(l))
+			return false
+		}
+		for i := range l {
+			if tlvs[i].Class != 2 || tlvs[i].Tag != l[i].tag || string(tlvs[i].Bytes) != string(l[i].b) {
+				bad("%s: name %d read back as [%d] %q, configured [%d] %q", what, i, tlvs[i].Tag, tlvs[i].Bytes, l[i].tag, l[i].b)
+				return false
+			}
+		}
+		return true
+	}
+	for _, l := range lists {
+		n++
+		var names []GeneralName
+		for _, x := range l {
+			names = append(names, x.g)
+		}
+		ext, err := NewSubjectAlternativeName(len(l)%2 == 0, names)
+		if err != nil || !hdr("subjectAltName", pkixExt{ext.Id, ext.Critical, ext.Value}, len(l)%2 == 0, "2.5.29.17") {
+			bad("subjectAltName: %v", err)
+			return
+		}
+		v, err := vfOne(ext.Value)
+		if err != nil || v.Tag != 16 || !v.Compound {
+			bad("subjectAltName: not a SEQUENCE: % x", ext.Value)
+			return
+		}
+		tlvs, err := vfSeq(v.Bytes)
+		if err != nil || !checkNames("subjectAltName", tlvs, l) {
+			return
+		}
+		// authorityInfoAccess over the same lists: SEQUENCE OF SEQUENCE { id-ad-ocsp, location }
+		var ads []AccessDescription
+		for _, x := range l {
+			ads = append(ads, AccessDescription{Ocsp, x.g})
+		}
+		aia, err := NewAuthorityInfoAccess(len(l)%2 == 1, ads)
+		if err != nil || !hdr("authorityInfoAccess", pkixExt{aia.Id, aia.Critical, aia.Value}, len(l)%2 == 1, "1.3.6.1.5.5.7.1.1") {
+			bad("authorityInfoAccess: %v", err)
+			return
+		}
+		v, err = vfOne(aia.Value)
+		if err != nil || v.Tag != 16 || !v.Compound {
+			bad("authorityInfoAccess: not a SEQUENCE: % x", aia.Value)
+			return
+		}
+		descs, err := vfSeq(v.Bytes)
+		if err != nil || len(descs) != len(l) {
+			bad("authorityInfoAccess: %d descriptions encoded, %d configured (% x)", len(descs), len(l), aia.Value)
+			return
+		}
+		var locs []vfTLV
+		for i, d := range descs {
+			parts, err := vfSeq(d.Bytes)
+			if err != nil || d.Tag != 16 || len(parts) != 2 || vfOidOf(parts[0]) != "1.3.6.1.5.5.7.48.1" {
+				bad("authorityInfoAccess: description %d is not { id-ad-ocsp, location }: % x", i, aia.Value)
+				return
+			}
+			locs = append(locs, parts[1])
+		}
+		if !checkNames("authorityInfoAccess", locs, l) {
+			return
+		}
+	}
+	// basic constraints: ca x pathLen x critical (without the known finding ca && pathLen == 0)
+	for _, ca := range []bool{false, true} {
+		for _, pl := range []int{0, 1, 2, 3, 127, 128, 255, 256, 65535} {
+			n++
+			ext := NewBasicConstraints(ca, ca, pl)
+			if !hdr("basicConstraints", pkixExt{ext.Id, ext.Critical, ext.Value}, ca, "2.5.29.19") {
+				return
+			}
+			var bc struct {
+				IsCa    bool `asn1:"optional"`
+				PathLen int  `asn1:"optional,default:-1"`
+			}
+			if rest, err := asn1.Unmarshal(ext.Value, &bc); err != nil || len(rest) != 0 {
+				bad("basicConstraints(%v,%d) does not decode: %v", ca, pl, err)
+				return
+			}
+			wantPl := pl
+			if pl == 0 {
+				wantPl = -1 // absent; (true, 0) is the recorded finding
+			}
+			if bc.IsCa != ca || bc.PathLen != wantPl {
+				bad("basicConstraints(%v,%d) read back as ca=%v pathLen=%d", ca, pl, bc.IsCa, bc.PathLen)
+				return
+			}
+		}
+	}
+	// certificate policies: up to two policies, each with one of five qualifier lists
+	type qual struct {
+		cps     string
+		org     string
+		numbers []int
+		text    string
+	}
+	quals := [][]qual{nil, {{cps: "http://cps/"}}, {{org: "Org", numbers: []int{1, 2}, text: "notice"}}, {{cps: "http://a/"}, {org: "O", numbers: []int{7}, text: "t"}}, {{org: "O2", numbers: []int{3}, text: "t2"}, {cps: "http://b/"}}}
+	polOids := []asn1.ObjectIdentifier{{1, 2, 3}, {2, 5, 29, 32, 0}}
+	mkPol := func(oid asn1.ObjectIdentifier, qs []qual) PolicyInfo {
+		p := PolicyInfo{ObjectIdentifier: oid}
+		for _, q := range qs {
+			if q.cps != "" {
+				p.Qualifiers = append(p.Qualifiers, PolicyQualifier{QualifierId: asn1.ObjectIdentifier{1, 3, 6, 1, 5, 5, 7, 2, 1}, Cps: q.cps})
+			} else {
+				p.Qualifiers = append(p.Qualifiers, PolicyQualifier{QualifierId: asn1.ObjectIdentifier{1, 3, 6, 1, 5, 5, 7, 2, 2},
+					UserNotice: UserNotice{NoticeRef: NoticeReference{Organization: q.org, NoticeNumbers: q.numbers}, ExplicitText: q.text}})
+			}
+		}
+		return p
+	}
+	checkPol := func(t vfTLV, oid asn1.ObjectIdentifier, qs []qual) bool {
+		parts, err := vfSeq(t.Bytes)
+		if err != nil || t.Tag != 16 || len(parts) < 1 || vfOidOf(parts[0]) != oid.String() {
+			bad("certificatePolicies: policy %v read back as % x", oid, t.Bytes)
+			return false
+		}
+		if len(qs) == 0 {
+			if len(parts) != 1 {
+				bad("certificatePolicies: policy %v without qualifiers carries %d extra members", oid, len(parts)-1)
+				return false
+			}
+			return true
+		}
+		if len(parts) != 2 {
+			bad("certificatePolicies: policy %v has %d members, want OID and qualifiers", oid, len(parts))
+			return false
+		}
+		infos, err := vfSeq(parts[1].Bytes)
+		if err != nil || len(infos) != len(qs) {
+			bad("certificatePolicies: policy %v: %d qualifiers encoded, %d configured", oid, len(infos), len(qs))
+			return false
+		}
+		for i, q := range qs {
+			m, err := vfSeq(infos[i].Bytes)
+			if err != nil || len(m) != 2 {
+				bad("certificatePolicies: policy %v qualifier %d has %d members, want exactly id and qualifier", oid, i, len(m))
+				return false
+			}
+			if q.cps != "" {
+				if vfOidOf(m[0]) != "1.3.6.1.5.5.7.2.1" || m[1].Tag != 22 || string(m[1].Bytes) != q.cps {
+					bad("certificatePolicies: policy %v qualifier %d read back as %s %q, configured cps %q", oid, i, vfOidOf(m[0]), m[1].Bytes, q.cps)
+					return false
+				}
+				continue
+			}
+			un, err := vfSeq(m[1].Bytes)
+			if vfOidOf(m[0]) != "1.3.6.1.5.5.7.2.2" || err != nil || m[1].Tag != 16 || len(un) != 2 {
+				bad("certificatePolicies: policy %v qualifier %d is not a user notice { noticeRef, explicitText }", oid, i)
+				return false
+			}
+			ref, err := vfSeq(un[0].Bytes)
+			if err != nil || len(ref) != 2 || string(ref[0].Bytes) != q.org || ref[0].Tag != 12 || string(un[1].Bytes) != q.text || un[1].Tag != 12 {
+				bad("certificatePolicies: policy %v user notice read back as org %q text %q, configured %q %q", oid, ref[0].Bytes, un[1].Bytes, q.org, q.text)
+				return false
+			}
+			nums, err := vfSeq(ref[1].Bytes)
+			if err != nil || len(nums) != len(q.numbers) {
+				bad("certificatePolicies: policy %v notice numbers %d encoded, %d configured", oid, len(nums), len(q.numbers))
+				return false
+			}
+			for k, nv := range nums {
+				if nv.Tag != 2 || len(nv.Bytes) != 1 || int(nv.Bytes[0]) != q.numbers[k] {
+					bad("certificatePolicies: policy %v notice number %d read back as % x, configured %d", oid, k, nv.Bytes, q.numbers[k])
+					return false
+				}
+			}
+		}
+		return true
+	}
+	for i, qa := range quals {
+		for j, qb := range quals {
+			for npol := 1; npol <= 2; npol++ {
+				n++
+				pols := []PolicyInfo{mkPol(polOids[0], qa)}
+				if npol == 2 {
+					pols = append(pols, mkPol(polOids[1], qb))
+				} else if j > 0 {
+					continue
+				}
+				ext, err := NewCertificatePolicies((i+j)%2 == 0, pols)
+				if err != nil || !hdr("certificatePolicies", pkixExt{ext.Id, ext.Critical, ext.Value}, (i+j)%2 == 0, "2.5.29.32") {
+					bad("certificatePolicies: %v", err)
+					return
+				}
+				v, err := vfOne(ext.Value)
+				if err != nil || v.Tag != 16 {
+					bad("certificatePolicies: not a SEQUENCE: % x", ext.Value)
+					return
+				}
+				ps, err := vfSeq(v.Bytes)
+				if err != nil || len(ps) != npol || !checkPol(ps[0], polOids[0], qa) || (npol == 2 && !checkPol(ps[1], polOids[1], qb)) {
+					if err != nil || len(ps) != npol {
+						bad("certificatePolicies: %d policies encoded, %d configured", len(ps), npol)
+					}
+					return
+				}
+			}
+		}
+	}
+	// extended key usage: all lists of length 0..3 over four OIDs
+	ekuPool := []asn1.ObjectIdentifier{{1, 3, 6, 1, 5, 5, 7, 3, 1}, {1, 3, 6, 1, 5, 5, 7, 3, 9}, {1, 2, 3, 4}, {2, 5, 29, 37, 0}}
+	var ekuLists [][]asn1.ObjectIdentifier
+	ekuLists = append(ekuLists, []asn1.ObjectIdentifier{})
+	for _, a := range ekuPool {
+		ekuLists = append(ekuLists, []asn1.ObjectIdentifier{a})
+		for _, b := range ekuPool {
+			ekuLists = append(ekuLists, []asn1.ObjectIdentifier{a, b})
+			for _, c := range ekuPool {
+				ekuLists = append(ekuLists, []asn1.ObjectIdentifier{a, b, c})
+			}
+		}
+	}
+	for _, l := range ekuLists {
+		n++
+		ext, err := NewExtendedKeyUsage(len(l) == 1, l)
+		if err != nil || !hdr("extendedKeyUsage", pkixExt{ext.Id, ext.Critical, ext.Value}, len(l) == 1, "2.5.29.37") {
+			bad("extendedKeyUsage: %v", err)
+			return
+		}
+		v, err := vfOne(ext.Value)
+		if err != nil || v.Tag != 16 {
+			bad("extendedKeyUsage: not a SEQUENCE: % x", ext.Value)
+			return
+		}
+		os, err := vfSeq(v.Bytes)
+		if err != nil || len(os) != len(l) {
+			bad("extendedKeyUsage: %d usages encoded, %d configured", len(os), len(l))
+			return
+		}
+		for i := range l {
+			if vfOidOf(os[i]) != l[i].String() {
+				bad("extendedKeyUsage: usage %d read back as %s, configured %s", i, vfOidOf(os[i]), l[i])
+				return
+			}
+		}
+	}
+	// authority key identifier from an explicit id: lengths 1..4 and 20
+	for _, id := range [][]byte{{1}, {0, 1}, {1, 2, 3}, {255, 0, 255, 0}, make([]byte, 20)} {
+		n++
+		ext, err := NewAuthorityKeyIdentifierFromStruct(len(id) == 1, AuthorityKeyIdentifier{KeyIdentifier: id})
+		if err != nil || !hdr("authorityKeyIdentifier", pkixExt{ext.Id, ext.Critical, ext.Value}, len(id) == 1, "2.5.29.35") {
+			bad("authorityKeyIdentifier: %v", err)
+			return
+		}
+		v, err := vfOne(ext.Value)
+		parts, err2 := vfSeq(v.Bytes)
+		if err != nil || err2 != nil || v.Tag != 16 || len(parts) != 1 || parts[0].Class != 2 || parts[0].Tag != 0 || string(parts[0].Bytes) != string(id) {
+			bad("authorityKeyIdentifier: id % x read back as % x", id, ext.Value)
+			return
+		}
+	}
+	// ocspNoCheck
+	for _, crit := range []bool{false, true} {
+		n++
+		ext := NewOcspNoCheck(crit)
+		if !hdr("ocspNoCheck", pkixExt{ext.Id, ext.Critical, ext.Value}, crit, "1.3.6.1.5.5.7.48.1.5") || string(ext.Value) != "\x05\x00" {
+			bad("ocspNoCheck: value % x", ext.Value)
+			return
+		}
+	}
+	fmt.Printf("VERIF-BOUNDED: ok cases=%d\n", n)
+}
+
+type pkixExt struct {
+	Id       asn1.ObjectIdentifier
+	Critical bool
+	Value    []byte
+}
